@@ -236,6 +236,28 @@ def _shard(arg):
     return res
 
 
+F8_PROBE = {"b_alg": "cube4D", "n_b": 4, "o_alg": "ico", "n_o": 4, "radii": ["0.2", "0.4"], "factor": 2.0, "factor2": None,
+            "cartesian": True, "order": ["adjacency", "array", "borders", "distances", "volumes"]}
+
+
+def _f8_probe(_):
+    """The recorded input of known finding F8 (Cartesian mode, ico_4), judged on every run."""
+    res = Result()
+    case = dict(F8_PROBE)
+    found = judge(case)
+    known = f8_predicate(case)
+    res.case(sample=case, nontrivial=True, key=case, classes=["f8_probe"])
+    rest = []
+    for tag, msg in found:
+        if known is not None and tag in ("pattern", "positive"):
+            res.known_finding(known["key"], known["what"])
+        else:
+            rest.append(msg)
+    if rest:
+        res.violation(case, "; ".join(rest[:4]))
+    return res
+
+
 def replay(case):
     known = f8_predicate(case)
     return [m for tag, m in judge(case) if not (known is not None and tag in ("pattern", "positive"))]
@@ -243,7 +265,7 @@ def replay(case):
 
 def run(tier):
     total, max_b, max_o = (240, 24, 30) if tier == "quick" else (1600, 60, 80)
-    res = merge_results(pmap(_shard, [(s, total // 16, max_b, max_o) for s in range(16)]))
+    res = merge_results(pmap(_shard, [(s, total // 16, max_b, max_o) for s in range(16)]) + pmap(_f8_probe, [0, 1]))
     rule = (f"Hypothesis: rotation grid zero4D_1 or cube4D/randomQ with N in 4..{max_b}; direction grid zero3D_1 or ico/cube3D/randomS "
             f"with N in 2..{max_o}; 2..5 increasing radii with non-uniform spacing; radii over several length scales (1e-5 .. 100 nm); factor in {{1, 2, 0.25, 0.5, 1.5, 3, 4, 0.731, 1e-3, 1e-4, 1e3, 37.5}}; both "
             f"position modes (Cartesian only for n_o>=3); at most 1500 cells, except roughly one case in twenty with more than 500 position cells and 4..5 rotations (up to 4200 cells). Every pair of cells judged (dense n x n). Non-trivial = "
